@@ -39,6 +39,7 @@ def construct(aut, objective):
         z = zk[-1]
         aut.init['env'] = z
         gr1.make_rabin_transducer(zk, yki, xkijr, aut)
+        aut._verif_iterates = (zk, yki)     # only used to classify a blocking state (known finding)
         mem = ['_hold', '_goal']
         mem_init = {'_hold': len(aut.win['<>[]']), '_goal': 0}
     return z, mem, mem_init
@@ -161,8 +162,22 @@ def check_concrete(aut, z, objective, mem, mem_init, only=None):
                 ok = all(any(has(x, ym) for ym in YM) for x in X)
             if not ok:
                 envcan = any(truth(env_a, p, dict(x, **y)) for x in X for y in Y)
-                found.append(('nonblock', f'no step allowed at winning state {p} '
-                              f'(environment action satisfiable there: {envcan})'))
+                kind = 'nonblock'
+                extra = ''
+                its = getattr(aut, '_verif_iterates', None)
+                if objective == 'rabin' and its is not None and p.get('_hold') is not None:
+                    zk_, yki_ = its
+                    none_ = len(aut.win['<>[]'])
+                    if p['_hold'] != none_:
+                        lvl = next((k for k, zz in enumerate(zk_) if truth(zz, p)), None)
+                        if lvl is not None and not truth(yki_[lvl][p['_hold']], p):
+                            # the persistence index was picked at a higher level of the outer fixpoint and kept
+                            # while the play entered a state of a lower level, where that index has no strategy
+                            kind = 'nonblock-stale-hold'
+                            extra = (f'; the state is first winning at outer iterate {lvl}, where persistence index '
+                                     f'{p["_hold"]} has no cycle set containing it')
+                found.append((kind, f'no step allowed at reachable winning state {p} '
+                              f'(environment action satisfiable there: {envcan}){extra}'))
                 break
     if want('moore-indep') and moore:
         for i, p in enumerate(inv):
@@ -401,13 +416,14 @@ def _decide(name0, name, fs, shape, moore, plus_one, objective, params, bits, sa
 def _replay_result(full, name, shape, moore, plus_one, objective, vals, params, r, dt, sample):
     base = name.split('[')[0].split('@')[0]
     found = replay_member(shape, moore, plus_one, objective, vals, only=[base])
-    hit = [f for f in found if f[0] == base]
+    hit = [f for f in found if f[0] == base or f[0].startswith(base + '-')]
     from vlib.props.c01 import _describe
     desc = _describe(vals, params)
     if hit:
         mode = f'{"moore" if moore else "mealy"}:{"plus_one" if plus_one else "stepwise"}'
         return core.res(full, 'violation', queries={r: 1}, solver_s=dt, sample=sample, nontrivial=True,
-                        functions=FUNCS[objective], signature=f'{objective}-impl:{base}:{mode}',
+                        functions=FUNCS[objective], signature=(f'{objective}-impl:{hit[0][0]}' if hit[0][0] != base
+                                                               else f'{objective}-impl:{base}:{mode}'),
                         detail=f'member {desc} of {shape} ({mode}): {hit[0][1]}',
                         cex=dict(shape=shape, moore=moore, plus_one=plus_one, objective=objective,
                                  values=vals, obligation=base))
@@ -588,7 +604,8 @@ def member_instances(shape, moore, plus_one, objective, seeds):
             ob, why = found[0]
             mode = f'{"moore" if moore else "mealy"}:{"plus_one" if plus_one else "stepwise"}'
             out.append(core.res(name, 'violation', sample=sample, nontrivial=True, functions=FUNCS[objective],
-                                signature=f'{objective}-impl:{ob}:{mode}', detail=f'member {_describe(vals, params)} of {shape} ({mode}): {why}',
+                                signature=(f'{objective}-impl:{ob}' if ob == 'nonblock-stale-hold' else f'{objective}-impl:{ob}:{mode}'),
+                                detail=f'member {_describe(vals, params)} of {shape} ({mode}): {why}',
                                 cex=dict(shape=shape, moore=moore, plus_one=plus_one, objective=objective, values=vals, obligation=ob)))
         else:
             out.append(core.res(name, 'holds', sample=sample, nontrivial=True, functions=FUNCS[objective]))
